@@ -49,6 +49,9 @@ pub struct Profile {
     pub exclude_nonfinal_hook_failure: bool,
     pub exclude_lazy_parser: bool,
     pub exclude_serial_late: bool,
+    /// Probability (x/100) of the "serial retry storm" shape: every serial scenario fails its first
+    /// attempt and is retried after a delay, concurrent scenarios are held at gates.
+    pub p_focus_serial_retry: u32,
 }
 
 impl Default for Profile {
@@ -84,6 +87,7 @@ impl Default for Profile {
             exclude_nonfinal_hook_failure: false,
             exclude_lazy_parser: false,
             exclude_serial_late: false,
+            p_focus_serial_retry: 0,
         }
     }
 }
@@ -281,10 +285,11 @@ fn retry_tag(t: &mut Tape, with_delay: bool) -> String {
 
 pub fn gen_case(t: &mut Tape, p: &Profile) -> RCase {
     let mut excluded = 0u64;
+    let focus = pct(t, p.p_focus_serial_retry);
     let before = pct(t, p.p_before);
-    let after = pct(t, p.p_after);
-    let tags_mode = pct(t, p.p_retry_tags_mode);
-    let custom_classifier = pct(t, p.p_custom_classifier);
+    let after = pct(t, p.p_after) || focus;
+    let tags_mode = pct(t, p.p_retry_tags_mode) && !focus;
+    let custom_classifier = pct(t, p.p_custom_classifier) && !focus;
     let mut lazy = pct(t, p.p_lazy_parser);
     if lazy && p.exclude_lazy_parser {
         lazy = false;
@@ -504,7 +509,7 @@ pub fn gen_case(t: &mut Tape, p: &Profile) -> RCase {
         after: retry_cli.after.or(retry_builder.after),
         filter: retry_cli.filter.clone().or_else(|| retry_builder.filter.clone()),
     };
-    let mut scenarios = vec![];
+    let mut scenarios: Vec<ScInfo> = vec![];
     let mut fidx = 0usize;
     for it in &items {
         let Item::Feature(f) = &it.item else { continue };
@@ -558,6 +563,26 @@ pub fn gen_case(t: &mut Tape, p: &Profile) -> RCase {
             }
         }
     }
+
+    if focus {
+        for sc in &mut scenarios {
+            let key = format!("after:{}", sc.name);
+            let v = plan.entry(key).or_default();
+            while v.len() < 4 {
+                v.push(PlanEntry { oc: Oc::Pass, gates: 0 });
+            }
+            if sc.serial {
+                let d = Duration::from_millis(t.range(1, 4) as u64);
+                let n = t.range(1, 2);
+                closure.insert(sc.name.clone(), (n, Some(d)));
+                sc.retry = Some((n, Some(d)));
+                v[0].oc = Oc::PanicString;
+            } else {
+                v[0].gates = t.range(1, 2) as u8;
+            }
+        }
+    }
+    let conc_builder = if focus && conc_builder == Some(1) { Some(3) } else { conc_builder };
 
     RCase {
         items,
